@@ -108,6 +108,13 @@ Theorem C18_rerandomised_product_uniform :
 Proof. exact rerandomised_product_uniform. Qed.
 Print Assumptions C18_rerandomised_product_uniform.
 
+(** Two openings masked by the SAME zero sharing: the mask cancels in the difference (exhaustive count, GF(7)). *)
+Theorem C18_zero_sharing_reuse_leaks_refuted :
+  Z.of_nat (List.length (reuse_views 1)) = 12348 /\
+  forall a', In a' (zrange 2 5) -> reuse_overlap 1 a' = 1764%nat.
+Proof. exact zero_sharing_reuse_leaks_refuted. Qed.
+Print Assumptions C18_zero_sharing_reuse_leaks_refuted.
+
 (** Non-vacuity. *)
 Example C18_sd_shift_nonvacuous : sd_num 10 13 8 = 3 /\ sd_num 10 30 8 = 8 /\ sd_num 13 10 8 = 3.
 Proof. vm_compute. auto. Qed.
